@@ -220,6 +220,17 @@ def run(rep, tier):
                 break
             e = inits[0]
             depth -= 1
+        # a private same-file Generator helper whose body is one expression: substitute the arguments for its parameters
+        if e is not None and e.get("k") == "mcall" and render(e["recv"]) == "self":
+            hs = [g for g in synq.all_fns(ABI) if g.name == e["method"] and g.self_ty == "Generator" and g.body is not None]
+            if len(hs) == 1 and len(hs[0].body.get("stmts", [])) == 1 and hs[0].body["stmts"][0].get("k") == "expr_stmt" \
+                    and not hs[0].body["stmts"][0].get("semi"):
+                h = hs[0]
+                ps = [p_ for p_ in h.params if p_ != "self"]
+                if len(ps) == len(e["args"]) and all(ps):
+                    ren = dict(synq.param_roles(f))
+                    sub = {p_: render(a, ren) for p_, a in zip(ps, e["args"])}
+                    return render(h.body["stmts"][0]["e"], sub)
         return R(f, e)
 
     def arm_roles(arm):
